@@ -397,6 +397,11 @@ func (e *c19Env) l2(out *zzverif.Out, c *c19Case, costs []int, r *c19Real, line 
 		return
 	}
 	L := len(c.msgs)
+	if L == 0 {
+		// the pinned code panics on an empty conversation (callers never pass one); nothing to keep
+		out.Count("empty_conversation_returned")
+		return
+	}
 	imgTok := 768
 	if c.mllama {
 		imgTok = 1
